@@ -9,7 +9,10 @@
 typedef struct fiber_barrier {
   uint32_t count;
   _Atomic uint64_t counter;
-  mpsc_fifo_t waiters;
+  // two waiter queues, used alternately by successive rounds: with 'count'
+  // participants at most two consecutive rounds can overlap, so a fiber
+  // re-entering the barrier never shares a queue with the previous round
+  mpsc_fifo_t waiters[2];
 } fiber_barrier_t;
 
 #define FIBER_BARRIER_SERIAL_FIBER (1)
